@@ -7,7 +7,13 @@
 package verifutf7
 
 import (
+	"bufio"
+	"bytes"
+	"errors"
+
 	"golang.org/x/text/transform"
+
+	"github.com/emersion/go-imap/v2/internal/imapwire"
 
 	"github.com/emersion/go-imap/v2/internal/utf7"
 )
@@ -45,3 +51,40 @@ func EncodeString(s string) (string, error) { return utf7.Encoding.NewEncoder().
 
 // DecodeString is the call of imapwire.Decoder.ExpectMailbox and imapserver's readListMailbox.
 func DecodeString(s string) (string, error) { return utf7.Encoding.NewDecoder().String(s) }
+
+// WireText is what the real imapwire.Encoder.Mailbox puts on the wire for a name (client side, no extensions
+// negotiated: the modified UTF-7 text as atom, quoted string or literal), unwrapped to the text it carries.
+func WireText(name string) (string, error) {
+	var conn bytes.Buffer
+	bw := bufio.NewWriter(&conn)
+	enc := imapwire.NewEncoder(bw, imapwire.ConnSideServer)
+	enc.Mailbox(name)
+	if err := enc.CRLF(); err != nil {
+		return "", err
+	}
+	// the text is read back with the string reader of the peer, which knows nothing of mailbox names
+	dec := imapwire.NewDecoder(bufio.NewReader(&conn), imapwire.ConnSideClient)
+	var text string
+	if !dec.ExpectAString(&text) || !dec.ExpectCRLF() {
+		return "", errors.New("not an astring: " + dec.Err().Error())
+	}
+	return text, nil
+}
+
+// WireRoundTrip sends a name through the real Encoder.Mailbox and reads it back with the peer's
+// Decoder.ExpectMailbox.
+func WireRoundTrip(name string) (string, error) {
+	var conn bytes.Buffer
+	bw := bufio.NewWriter(&conn)
+	enc := imapwire.NewEncoder(bw, imapwire.ConnSideServer)
+	enc.Mailbox(name)
+	if err := enc.CRLF(); err != nil {
+		return "", err
+	}
+	dec := imapwire.NewDecoder(bufio.NewReader(&conn), imapwire.ConnSideClient)
+	var got string
+	if !dec.ExpectMailbox(&got) || !dec.ExpectCRLF() {
+		return "", dec.Err()
+	}
+	return got, nil
+}
